@@ -1,45 +1,12 @@
-(* C53 -- specification, written from continuum mechanics, independently of the code.
-   1. the boundary-value problem of an elastic isotropic pipe (axisymmetric generalised plane strain, small strain),
-   2. the closed-form Lame solution (the oracle that the execution stage compares mtest with),
-   3. what a 1D Lagrange element and a Gauss rule have to satisfy. *)
+(* C53 -- specification, part 2 (needs derivatives: Coquelicot):
+   1. the boundary-value problem of an elastic isotropic pipe (axisymmetric generalised plane strain, small strain)
+      that the closed-form Lame solution of C53SpecFE.v (the oracle the execution stage compares mtest with) solves,
+   2. consistency of the derivatives of the shape functions. *)
 From Coq Require Import ZArith QArith Reals List.
 From Coquelicot Require Import Coquelicot.
+From C53 Require Export C53SpecFE.
 Import ListNotations.
-
-(* abstract scalar: the closed form below and the element model (C53Model.v) are written once and instantiated
-   with R (theorems) and Q (exact execution, so that the oracle the check compares mtest with IS the proved one) *)
-Record Num (T : Type) := mkNum {
-  nadd : T -> T -> T; nsub : T -> T -> T; nmul : T -> T -> T; ndiv : T -> T -> T; nZ : Z -> T }.
-Arguments nadd {T}. Arguments nsub {T}. Arguments nmul {T}. Arguments ndiv {T}. Arguments nZ {T}.
-Definition RNum : Num R := mkNum R Rplus Rminus Rmult Rdiv IZR.
-Definition QNum : Num Q :=
-  mkNum Q (fun a b => Qred (Qplus a b)) (fun a b => Qred (Qminus a b)) (fun a b => Qred (Qmult a b)) (fun a b => Qred (Qdiv a b)) inject_Z.
-
-(* plain (non-normalising) rationals: cheaper for shallow expressions such as the closed form *)
-Definition QNumPlain : Num Q := mkNum Q Qplus Qminus Qmult Qdiv inject_Z.
-
-Section LameClosedForm.
-  Context {T : Type} (N : Num T).
-  Local Notation "a + b" := (nadd N a b).
-  Local Notation "a - b" := (nsub N a b).
-  Local Notation "a * b" := (nmul N a b).
-  Local Notation "a / b" := (ndiv N a b).
-  Definition lameA_G (Ri Re Pi Pe : T) : T := (Pi * Ri * Ri - Pe * Re * Re) / (Re * Re - Ri * Ri).
-  Definition lameB_G (Ri Re Pi Pe : T) : T := (Pi - Pe) * Ri * Ri * Re * Re / (Re * Re - Ri * Ri).
-  Definition lame_srr_G (Ri Re Pi Pe r : T) : T := lameA_G Ri Re Pi Pe - lameB_G Ri Re Pi Pe / (r * r).
-  Definition lame_stt_G (Ri Re Pi Pe r : T) : T := lameA_G Ri Re Pi Pe + lameB_G Ri Re Pi Pe / (r * r).
-  (* szz is uniform: value s *)
-  Definition lame_ezz_G (E nu Ri Re Pi Pe s : T) : T := (s - nZ N 2 * nu * lameA_G Ri Re Pi Pe) / E.
-  Definition lame_u_G (E nu Ri Re Pi Pe s r : T) : T :=
-    r * (lame_stt_G Ri Re Pi Pe r - nu * (lame_srr_G Ri Re Pi Pe r + s)) / E.
-End LameClosedForm.
-
 Local Open Scope R_scope.
-
-(* ---- isotropic Hooke law, components (rr, zz, tt) --------------------------------------------------- *)
-Definition lame_lambda (E nu : R) : R := nu * E / ((1 + nu) * (1 - 2 * nu)).
-Definition lame_mu (E nu : R) : R := E / (2 * (1 + nu)).
-Definition hooke (E nu e1 e2 e3 : R) : R := lame_lambda E nu * (e1 + e2 + e3) + 2 * lame_mu E nu * e1.
 
 (* ---- the boundary value problem ---------------------------------------------------------------------- *)
 (* u : radial displacement, ezz : uniform axial strain, (srr, stt, szz) : stresses, Faxial : resultant axial force *)
@@ -56,31 +23,6 @@ Record pipe_bvp (E nu Ri Re Pi Pe Faxial : R) (u : R -> R) (ezz : R) (srr stt sz
   bvp_axial : exists Fz : R -> R, (forall r, Ri <= r <= Re -> is_derive Fz r (2 * PI * r * szz r)) /\ Fz Re - Fz Ri = Faxial
 }.
 
-(* ---- Lame closed form --------------------------------------------------------------------------------- *)
-Definition lameA := lameA_G RNum.
-Definition lameB := lameB_G RNum.
-Definition lame_srr := lame_srr_G RNum.
-Definition lame_stt := lame_stt_G RNum.
-Definition lame_ezz := lame_ezz_G RNum.
-Definition lame_u := lame_u_G RNum.
-(* axial stress for the two axial loadings used by the check *)
-Definition szz_no_axial_force : R := 0.                                              (* @AxialLoading 'None' *)
-Definition szz_end_cap (Ri Re Pi Pe : R) : R := lameA Ri Re Pi Pe.                   (* 'EndCapEffect' *)
-
-(* ---- elements --------------------------------------------------------------------------------------- *)
-Definition sumR (l : list R) : R := fold_right Rplus 0 l.
-Definition partition_of_unity (sf : list (R -> R)) : Prop := forall x, sumR (map (fun f => f x) sf) = 1.
-Definition kronecker (i j : nat) : R := if Nat.eqb i j then 1 else 0.
-Definition nodal_interpolation (sf : list (R -> R)) (nodes : list R) : Prop :=
-  length sf = length nodes /\
-  forall i j, (i < length sf)%nat -> (j < length nodes)%nat -> nth i sf (fun _ => 0) (nth j nodes 0) = kronecker i j.
 Definition derivative_consistent (sf dsf : list (R -> R)) : Prop :=
   length sf = length dsf /\
   forall i x, (i < length sf)%nat -> is_derive (nth i sf (fun _ => 0)) x (nth i dsf (fun _ => 0) x).
-(* a quadrature rule integrates x^k on [-1,1] exactly: 2/(k+1) for even k, 0 for odd k *)
-Definition moment (k : nat) : R := if Nat.even k then 2 / INR (k + 1) else 0.
-Definition quadR (gps : list (R * R)) (f : R -> R) : R := sumR (map (fun xw => snd xw * f (fst xw)) gps).
-Definition exact_to_degree (gps : list (R * R)) (d : nat) : Prop :=
-  forall k, (k <= d)%nat -> quadR gps (fun x => x ^ k) = moment k.
-Definition exact_to_degree_within (gps : list (R * R)) (d : nat) (eps : R) : Prop :=
-  forall k, (k <= d)%nat -> Rabs (quadR gps (fun x => x ^ k) - moment k) <= eps.
